@@ -1773,7 +1773,7 @@ fn lit_req(lty: &'static str, arms: Vec<(bool, Pat)>) -> Req {
 
 /// the literal sets of the systematic part: (name, literals) for a type; dense sets (>= 3 literals, span <= 128) are
 /// lowered to a jump table, the others to a binary search
-fn lit_sets(lty: &str) -> Vec<Vec<i64>> {
+fn lit_sets(lty: &str) -> Vec<(Vec<i64>, bool)> {
     let (lo, hi) = lit_range(lty);
     let mut bases: Vec<i64> = vec![0, 1, 5, 100];
     if lo < 0 {
@@ -1785,35 +1785,39 @@ fn lit_sets(lty: &str) -> Vec<Vec<i64>> {
     if lty == "Int32" {
         bases.extend([65535, -65537, (1 << 31) - 130]);
     }
-    let mut sets: Vec<Vec<i64>> = Vec::new();
-    let mut add = |s: Vec<Option<i64>>| {
+    let mut sets: Vec<(Vec<i64>, bool)> = Vec::new();
+    // `core` sets are part of every run (quick tier included)
+    let mut add = |s: Vec<Option<i64>>, core: bool| {
         let s: Option<Vec<i64>> = s.into_iter().collect();
         if let Some(s) = s {
-            if s.iter().all(|x| *x >= lo && *x <= hi) && !sets.contains(&s) {
-                sets.push(s);
+            if s.iter().all(|x| *x >= lo && *x <= hi) && !sets.iter().any(|e| e.0 == s) {
+                sets.push((s, core));
             }
         }
     };
+    let big = if lty == "Int64" { 5_000_000_000 } else { 100 };
     for &b in &bases {
-        add(vec![Some(b), b.checked_add(1), b.checked_add(2)]); // dense, no hole
-        add(vec![Some(b), b.checked_add(2), b.checked_add(5), b.checked_add(7)]); // dense with holes
-        add(vec![Some(b), b.checked_add(64), b.checked_add(127)]); // span exactly 128: still a table
-        add(vec![Some(b), b.checked_add(64), b.checked_add(128)]); // span 129: binary search
-        add(vec![Some(b), b.checked_add(1)]); // two literals: binary search
-        add(vec![Some(b), b.checked_add(1000), b.checked_add(100_000), b.checked_add(100_001)]); // sparse
-        add(vec![b.checked_add(2), Some(b), b.checked_add(1)]); // dense, written out of order
+        // dense, no hole: smallest literal 0 / non-zero / negative / the type's minimum
+        add(vec![Some(b), b.checked_add(1), b.checked_add(2)], b == 0 || b == 5 || b == -3 || b == lo);
+        // dense with holes
+        add(vec![Some(b), b.checked_add(2), b.checked_add(5), b.checked_add(7)], b == big || b == -1);
+        add(vec![Some(b), b.checked_add(64), b.checked_add(127)], b == 1); // span exactly 128: still a table
+        add(vec![Some(b), b.checked_add(64), b.checked_add(128)], b == 1); // span 129: binary search
+        add(vec![Some(b), b.checked_add(1)], false); // two literals: binary search
+        add(vec![Some(b), b.checked_add(1000), b.checked_add(100_000), b.checked_add(100_001)], b == -3); // sparse
+        add(vec![b.checked_add(2), Some(b), b.checked_add(1)], false); // dense, written out of order
     }
     // ending at the type's maximum
-    add(vec![Some(hi - 2), Some(hi - 1), Some(hi)]);
-    add(vec![Some(hi - 127), Some(hi - 3), Some(hi)]);
-    add(vec![Some(hi - 1), Some(hi)]);
-    add(vec![Some(lo), Some(0), Some(hi)]); // extremes: span does not fit
-    add(vec![Some(lo), Some(hi)]);
-    add(vec![Some(hi)]);
-    add(vec![Some(lo)]);
+    add(vec![Some(hi - 2), Some(hi - 1), Some(hi)], true);
+    add(vec![Some(hi - 127), Some(hi - 3), Some(hi)], false);
+    add(vec![Some(hi - 1), Some(hi)], false);
+    add(vec![Some(lo), Some(0), Some(hi)], true); // extremes: span does not fit
+    add(vec![Some(lo), Some(hi)], false);
+    add(vec![Some(hi)], false);
+    add(vec![Some(lo)], false);
     if lty == "UInt8" {
-        add(vec![Some(0), Some(100), Some(255)]);
-        add((120..136).map(Some).collect());
+        add(vec![Some(0), Some(100), Some(255)], false);
+        add((120..136).map(Some).collect(), true);
     }
     sets
 }
@@ -1878,7 +1882,7 @@ fn all_lit_requests() -> (Vec<Req>, Vec<Req>) {
     let mut core: Vec<Req> = Vec::new();
     let mut ext: Vec<Req> = Vec::new();
     for lty in ["Int64", "Int32", "UInt8"] {
-        for (si, set) in lit_sets(lty).iter().enumerate() {
+        for (si, (set, core_set)) in lit_sets(lty).iter().enumerate() {
             let plain = |i: i64, _k: usize| Pat::Int(i);
             // spellings: hex / binary / underscores / unsuffixed / a const, by position
             let spelled = |i: i64, k: usize| match k % 6 {
@@ -1891,7 +1895,7 @@ fn all_lit_requests() -> (Vec<Req>, Vec<Req>) {
             };
             for (hi, arms) in lit_shapes(set, &plain).into_iter().enumerate() {
                 // core = the plain default-arm shape of every set, and two guarded shapes for every third set
-                let is_core = hi == 0 || (si % 3 == 0 && (hi == 5 || hi == 6));
+                let is_core = *core_set && (hi == 0 || (si % 4 == 0 && (hi == 4 || hi == 5)));
                 if is_core { core.push(lit_req(lty, arms)) } else { ext.push(lit_req(lty, arms)) }
             }
             for (hi, arms) in lit_shapes(set, &spelled).into_iter().enumerate() {
